@@ -6,6 +6,16 @@ VERIF = os.path.dirname(os.path.dirname(os.path.abspath(__file__)))
 
 # property -> (level category, level text, level note, technique, engine, design ref)
 CLAIMS = {
+    "C06": ("other",
+            "Decides the property's 'because' clause and the reader-side isolation facts on all paths: no in-range EO "
+            "integer encoding contains 0xFF and the writer emits exactly that encoding; with sanitisation on no string "
+            "write emits 0xFF from the string's bytes; in chunked mode no read advances past the current break and "
+            "surplus reads return 0/empty without moving; next_chunk's post-state is a function of the chunk start only "
+            "and lands just past the break; plus the whole C05 refinement. The two-run non-interference relation is "
+            "argued from these, not machine-checked.",
+            "Trusted: engines A/B and the C05/C07/C09 analyses it re-runs.",
+            "abstract interpretation of writer, codec and reader (composition of per-path facts)",
+            "A+B", "DESIGN.md section 4, C06"),
     "C07": ("proof",
             "Every clause is discharged for the whole input interval by abstract interpretation of encode_number / "
             "decode_number (affine forms + div/mod identities, Fourier-Motzkin entailment): byte ranges, filler, "
